@@ -1,5 +1,6 @@
 """C15 - the canonical model stays a well-formed tree under any sequence of API calls."""
 import itertools
+import signal
 from collections import Counter
 
 from hypothesis import strategies as st
@@ -69,6 +70,7 @@ AVOID = frozenset([
   "Rtc.push_child-extends-Rp-prefix", "Rtc.push_children-onto-existing",                      # M-7
   "Ruby.push_children-generator", "Rtc.push_children-generator",                              # M-7
   "Ruby.push_children-unpushable-child", "Rtc.push_children-unpushable-child",                # M-8
+  "Br.copy_to-self-with-animation", "Region.copy_to-self-with-animation",                     # M-9
 ])
 
 ALPHABET = [
@@ -157,6 +159,11 @@ ALPHABET = [
   ("add_animation_step", "d1.p1", "Color", "color.red", 0, None),
   ("put_initial_value", "d1", "FontFamily", "ff.bad-nested-item"),
   ("put_initial_value", "d1", "Color", "color.red"),
+  ("add_animation_step", "d1.br1", "Color", "color.red", 0, None),
+  ("add_animation_step", "d1.rB", "Opacity", "num.half", None, 2),
+  ("copy_to", "d1.br1", "d1.br1"),
+  ("copy_to", "d1.rB", "d1.rB"),
+  ("copy_to", "d1.p1", "d1.p1"),
   ("copy_to", "d1.p1", "d1.p2"),
   ("copy_to", "d1.p1", "d1.text1"),
 ]
@@ -242,6 +249,37 @@ def _prefix_states(m, op):
   return out
 
 
+class _Watchdog(BaseException):
+  """raised inside a ttconv call that has used more CPU time than any call on a 67-object universe can need"""
+
+
+def _alarm(_signum, _frame):
+  raise _Watchdog()
+
+
+CALL_CPU_LIMIT = 0.5    # seconds of process CPU time (not wall time: independent of machine load); a healthy call takes microseconds
+
+
+def _perform(u, op):
+  """one call under a CPU-time watchdog; returns 'accepted' | 'rejected' | 'hang'"""
+  old = signal.signal(signal.SIGVTALRM, _alarm)
+  signal.setitimer(signal.ITIMER_VIRTUAL, CALL_CPU_LIMIT)
+  try:
+    try:
+      mu.perform(u, op)
+      return "accepted"
+    finally:
+      signal.setitimer(signal.ITIMER_VIRTUAL, 0)
+  except _Watchdog:
+    return "hang"
+  except (RecursionError, MemoryError):
+    raise
+  except Exception:  # pylint: disable=broad-except
+    return "rejected"
+  finally:
+    signal.signal(signal.SIGVTALRM, old)
+
+
 def check(case, res):
   profile = case.get("profile", "all")
   start = case.get("start", "flat")
@@ -285,13 +323,17 @@ def check(case, res):
     if profile == "clean" and key in AVOID:
       stats["skipped-known-trigger:" + key] += 1
       continue
-    try:
-      mu.perform(u, op)
-      accepted = True
-    except RecursionError:
-      raise
-    except Exception:  # pylint: disable=broad-except
-      accepted = False
+    outcome = _perform(u, op)
+    accepted = outcome == "accepted"
+    if outcome == "hang":
+      # the call did not return: nothing can be said about the state (it may be huge), so it is dropped unread
+      res.evals += 1
+      executed += 1
+      stats["call:%s:hang" % key] += 1
+      res.fail("hang:" + key, "call %d %r (%s) was still running after %.1f s of CPU time" % (i, op, key, CALL_CPU_LIMIT))
+      violated = True
+      u = None
+      break
     if not in_prelude:
       res.evals += 1
       executed += 1
